@@ -1,6 +1,7 @@
 package c11
 
 import (
+	"bufio"
 	"bytes"
 	"fmt"
 	"io"
@@ -525,6 +526,7 @@ func TestCheck(t *testing.T) {
 	vlib.RunCheck(r, vlib.Check[ParseCase]{Name: "http-parse", N: r.Pick(25000, 400000), Gen: genParse, Run: runParse})
 	vlib.RunCheck(r, vlib.Check[WSCase]{Name: "websocket", N: r.Pick(25000, 400000), Gen: genWS, Run: runWS})
 	vlib.RunCheck(r, vlib.Check[HandoverCase]{Name: "upgrade-handover", N: r.Pick(15000, 300000), Gen: genHandover, Run: runHandover})
+	vlib.RunCheck(r, vlib.Check[UpgradeCase]{Name: "upgrade-response", N: r.Pick(8000, 150000), Gen: genUpgrade, Run: runUpgrade})
 	vlib.RunCheck(r, vlib.Check[ConnCase]{Name: "conn-write-queue", N: r.Pick(2400, 60000), Gen: genConn, Run: runConn, RecordCurrent: true})
 	r.Finish()
 }
@@ -679,5 +681,106 @@ func genConn(t *rapid.T) ConnCase {
 		}
 		c.Ops = append(c.Ops, op)
 	}
+	return c
+}
+
+// ---------- workload 6: the WebSocket handshake response ----------
+
+// UpgradeCase: the 101 response is built in a pooled buffer that starts small; custom response headers and
+// a negotiated subprotocol make it grow past its capacity (several times, with the pointer-moving allocator).
+type UpgradeCase struct {
+	HeaderLens  []int `json:"header_lens"` // one custom response header per entry, value of that many bytes
+	Subprotocol int   `json:"subprotocol_len"`
+	Compression bool  `json:"compression"`
+}
+
+func runUpgrade(c UpgradeCase) vlib.Result {
+	return vlib.WithWatchdog(60*time.Second, "the WebSocket upgrader", func() vlib.Result {
+		tracker.Reset()
+		res := vlib.Result{Classes: []string{"workload=upgrade-response"}}
+		conn := &vlib.FakeConn{}
+		u := websocket.NewUpgrader()
+		u.KeepaliveTime = 0
+		u.EnableCompression(c.Compression)
+		proto := ""
+		if c.Subprotocol > 0 {
+			proto = strings.Repeat("p", c.Subprotocol)
+			u.Subprotocols = []string{proto}
+		}
+		hdr := http.Header{}
+		want := map[string]string{}
+		for i, n := range c.HeaderLens {
+			k := fmt.Sprintf("X-Custom-%d", i)
+			v := string(vlib.GenPayload("ascii", n, uint32(i)))
+			hdr.Set(k, v)
+			want[k] = v
+		}
+		var upErr error
+		var wsc *websocket.Conn
+		conf := nbhttp.Config{ServerExecutor: inline, ClientExecutor: inline, SupportServerOnly: true, BodyAllocator: tracker}
+		conf.Handler = http.HandlerFunc(func(w http.ResponseWriter, r *http.Request) {
+			wsc, upErr = u.Upgrade(w, r, hdr)
+		})
+		engine := nbhttp.NewEngine(conf)
+		u.Engine = engine
+		p := nbhttp.NewParser(conn, engine, nbhttp.NewServerProcessor(), false, nil)
+		req := "GET /ws HTTP/1.1\r\nHost: verif.local\r\nUpgrade: websocket\r\nConnection: Upgrade\r\nSec-WebSocket-Key: dGhlIHNhbXBsZSBub25jZQ==\r\nSec-WebSocket-Version: 13\r\n"
+		if proto != "" {
+			req += "Sec-WebSocket-Protocol: " + proto + "\r\n"
+		}
+		if c.Compression {
+			req += "Sec-WebSocket-Extensions: permessage-deflate; server_no_context_takeover; client_no_context_takeover\r\n"
+		}
+		req += "\r\n"
+		perr := p.Parse([]byte(req))
+		if wsc != nil {
+			wsc.CloseAndClean(nil)
+		}
+		p.CloseAndClean(perr)
+		time.Sleep(200 * time.Microsecond) // the connection's own read loop (blocking style) ends on the fake conn's read error
+		vlib.Logs.Take()
+		if upErr != nil || perr != nil {
+			res.Err = fmt.Errorf("a well-formed upgrade request was refused: Upgrade error %v, Parse error %v", upErr, perr)
+			return res
+		}
+		resp, rerr := http.ReadResponse(bufio.NewReader(bytes.NewReader(conn.Bytes())), &http.Request{Method: "GET"})
+		if rerr != nil || resp.StatusCode != 101 {
+			res.Err = fmt.Errorf("the handshake response does not parse as a 101 response: %v (%s)", rerr, vlib.Preview(conn.Bytes(), 120))
+			return res
+		}
+		for k, v := range want {
+			if got := resp.Header.Get(k); got != v {
+				what := ""
+				if vlib.ContainsPoison([]byte(got), 3) {
+					what = " (it contains freed-buffer poison)"
+				}
+				res.Err = fmt.Errorf("response header %s: %d bytes arrived, %d were set, or the content differs%s", k, len(got), len(v), what)
+				return res
+			}
+		}
+		if proto != "" && resp.Header.Get("Sec-Websocket-Protocol") != proto {
+			res.Err = fmt.Errorf("negotiated subprotocol of %d bytes arrived as %d bytes", len(proto), len(resp.Header.Get("Sec-Websocket-Protocol")))
+			return res
+		}
+		if v := tracker.Finish(); len(v) > 0 {
+			res.Err = fmt.Errorf("%s", v[0])
+			return res
+		}
+		total := 0
+		for _, n := range c.HeaderLens {
+			total += n
+		}
+		res.NonTrivial = total+c.Subprotocol > 900
+		return res
+	})
+}
+
+func genUpgrade(t *rapid.T) UpgradeCase {
+	c := UpgradeCase{Compression: rapid.Bool().Draw(t, "compression")}
+	n := rapid.IntRange(0, 4).Draw(t, "nheaders")
+	for i := 0; i < n; i++ {
+		c.HeaderLens = append(c.HeaderLens, rapid.SampledFrom([]int{0, 1, 100, 800, 890, 1024, 3000}).Draw(t, "hlen"))
+	}
+	c.Subprotocol = rapid.SampledFrom([]int{0, 0, 4, 900, 2000}).Draw(t, "proto")
 	return c
 }
